@@ -544,12 +544,23 @@ impl Arena {
   /// Truncate the ARENA to a new capacity.
   ///
   /// **Note:** If the new capacity is less than the current allocated size, then the ARENA will be truncated to the allocated size.
+  ///
+  /// Truncating replaces the backing memory, so it fails if the ARENA is shared,
+  /// i.e. there are clones of it or owned buffers or values allocated from it.
   #[cfg(all(feature = "memmap", not(target_family = "wasm")))]
   pub fn truncate(&mut self, mut size: usize) -> std::io::Result<()> {
     if self.ro {
       return Err(std::io::Error::new(
         std::io::ErrorKind::PermissionDenied,
         "ARENA is read-only",
+      ));
+    }
+
+    // the other handles cache the base pointer of the memory we are about to replace.
+    if self.refs() > 1 {
+      return Err(std::io::Error::new(
+        std::io::ErrorKind::Other,
+        "ARENA is shared by clones or owned buffers",
       ));
     }
 
@@ -570,8 +581,18 @@ impl Arena {
   /// Truncate the ARENA to a new capacity.
   ///
   /// **Note:** If the new capacity is less than the current allocated size, then the ARENA will be truncated to the allocated size.
+  ///
+  /// # Panic
+  /// Truncating replaces the backing memory, so it panics if the ARENA is shared,
+  /// i.e. there are clones of it or owned buffers or values allocated from it.
   #[cfg(not(all(feature = "memmap", not(target_family = "wasm"))))]
   pub fn truncate(&mut self, mut size: usize) {
+    // the other handles cache the base pointer of the memory we are about to replace.
+    assert!(
+      self.refs() <= 1,
+      "ARENA is shared by clones or owned buffers"
+    );
+
     let allocated = self.allocated();
     if allocated >= size {
       size = allocated;
